@@ -102,7 +102,8 @@ impl RetryPolicy {
         Fut: Future<Output = Result<T>>,
     {
         let mut attempt = 0;
-        let mut backoff = self.initial_backoff;
+        // The first delay is bounded by max_backoff like every later one
+        let mut backoff = self.initial_backoff.min(self.max_backoff);
 
         loop {
             match f().await {
@@ -135,9 +136,13 @@ impl RetryPolicy {
                     sleep(delay).await;
 
                     // Increase backoff
+                    // Clamp to [0, max_backoff]: a negative multiplier (reachable through
+                    // CASCETTE_BACKOFF_MULTIPLIER) must not reach from_secs_f64, which panics
+                    // on negative input
                     backoff = Duration::from_secs_f64(
                         (backoff.as_secs_f64() * self.multiplier)
-                            .min(self.max_backoff.as_secs_f64()),
+                            .min(self.max_backoff.as_secs_f64())
+                            .max(0.0),
                     );
                 }
             }
